@@ -113,6 +113,9 @@ LibDef(name) ==
     [] name = "empty" ->
          [params |-> <<1>>, locals |-> <<>>, body |-> <<"eq", <<"nil">>, V(1)>>]
 
+(* a relation defined by the case (body = list of goals) or a library relation *)
+DefOf(name, D) == IF name \in DOMAIN D THEN [D[name] EXCEPT !.body = <<"conj", D[name].body>>] ELSE LibDef(name)
+
 (* the body of relation `name` applied to args, with locals renamed from `base` *)
 Unfold(def, args, base) ==
   LET pren == [v \in {V(def.params[i]) : i \in 1..Len(def.params)} |->
